@@ -214,6 +214,32 @@ Section C13.
     apply pdf_container_invariant. exact H.
   Qed.
 
+  (** the RESULTS (density, CDF, log-density) are the same for a DataFrame in any column order and
+      the 2-d array in training order; for one point also for a Series (index in any order) and a
+      1-d array *)
+  Corollary C13_result_any_representation : forall (m : model label V S corr) rws hdr',
+      NoDup (columns _ _ _ _ m) -> Permutation (columns _ _ _ _ m) hdr' ->
+      forallb (fun r => length r =? length (columns _ _ _ _ m)) rws = true ->
+      let Xf := CFrame (reindex (Build_frame (columns _ _ _ _ m) rws) hdr') in
+      pdf m Xf = pdf m (CArray2 rws) /\ cdf m Xf = cdf m (CArray2 rws) /\ logpdf m Xf = logpdf m (CArray2 rws).
+  Proof.
+    intros m rws hdr' Hnd Hp Hw Xf. apply C13_results_container_invariant.
+    apply C13_frame_any_column_order; auto.
+  Qed.
+
+  Corollary C13_result_one_point_any_representation : forall (m : model label V S corr) xs hdr',
+      NoDup (columns _ _ _ _ m) -> Permutation (columns _ _ _ _ m) hdr' ->
+      length xs = length (columns _ _ _ _ m) ->
+      let Xs := CSeries (combine hdr' (reindex_row (columns _ _ _ _ m) xs hdr')) in
+      (pdf m Xs = pdf m (CArray2 [xs]) /\ cdf m Xs = cdf m (CArray2 [xs]) /\ logpdf m Xs = logpdf m (CArray2 [xs])) /\
+      (pdf m (CArray1 xs) = pdf m (CArray2 [xs]) /\ cdf m (CArray1 xs) = cdf m (CArray2 [xs]) /\
+       logpdf m (CArray1 xs) = logpdf m (CArray2 [xs])).
+  Proof.
+    intros m xs hdr' Hnd Hp Hl Xs.
+    destruct (C13_series_and_1d_array (columns _ _ _ _ m) (univariates _ _ _ _ m) xs hdr' Hnd Hp Hl) as [H1 H2].
+    split; apply C13_results_container_invariant; assumption.
+  Qed.
+
   (* a 2-d / 1-d array of the wrong width raises (pd.DataFrame(X, columns=self.columns)) *)
   Theorem C13_wrong_width_raises : forall columns univariates rws xs,
       (forallb (fun r => length r =? length columns) rws = false ->
@@ -343,6 +369,8 @@ Close Scope R_scope.
 Print Assumptions C13_delegation_pdf.
 Print Assumptions C13_frame_any_column_order.
 Print Assumptions C13_series_and_1d_array.
+Print Assumptions C13_result_any_representation.
+Print Assumptions C13_result_one_point_any_representation.
 Print Assumptions C13_result_rowwise.
 Print Assumptions C13_missing_column_silently_skipped.
 Print Assumptions C13_cdf_range_and_monotone.
